@@ -362,7 +362,7 @@ def _model_to_py(m: z3.ModelRef, names: Dict[str, z3.ExprRef]) -> Dict[str, Any]
 
 
 def explore(fn: Callable[[], Any], max_paths: int = 20000, timeout_ms: int = 60000, budget_s: float = 600.0,
-            setup: Optional[Callable[[], None]] = None) -> Outcome:
+            setup: Optional[Callable[[], None]] = None, validate: Optional[Callable[[Dict[str, Any]], bool]] = None) -> Outcome:
     """fn() runs the code under test on symbols and returns the property: a z3 Bool term, a SymBool or a bool.
     `setup` (optional) is called once per run before fn and may call assume()."""
     global CTX
@@ -411,6 +411,23 @@ def explore(fn: Callable[[], Any], max_paths: int = 20000, timeout_ms: int = 600
                 out.status = "cex"
                 out.model = _model_to_py(ctx.solver.model(), ctx.names)
                 out.detail = f"path {out.paths}: property false"
+                # z3 likes boundary values (ties with a threshold) that binary64 replay cannot hit: if the caller's validator
+                # rejects the model, ask for up to 4 other models of the same query that move every rejected value away
+                tries = 0
+                while validate is not None and tries < 2 and not validate(out.model):
+                    tries += 1
+                    block = []
+                    for nm, val in out.model.items():
+                        if isinstance(val, float):
+                            eps = 1e-3 * max(1.0, abs(val))
+                            x = ctx.names[nm]
+                            block.append(z3.Or(x > val + eps, x < val - eps))
+                    if not block:
+                        break
+                    ctx.solver.add(z3.Or(*block))
+                    if ctx.check(z3.Not(pt)) != "sat":
+                        break
+                    out.model = _model_to_py(ctx.solver.model(), ctx.names)
                 ctx.solver.pop()
                 return _fin(out, ctx)
             ctx.solver.pop()
